@@ -8,8 +8,8 @@
     replaced by "returns any duplicate-free list of codecs", which is what (a) decides) for
     EVERY pair of such lists and every server encode set: the chosen codec is the producible one
     ranked first in ``custom ++ (standard minus custom)``, none when identity ranks before it or
-    nothing overlaps, and the custom response header is used iff the codec was offered on the
-    custom header only.
+    nothing overlaps, and the custom response header is used when the codec was offered on the
+    custom header only, the standard one when on the standard header only (either when on both).
 (c) ``process_request`` -> (producer pre-compression simulated exactly as the published
     contextvars tell it) -> ``process_response`` on duck-typed request/response objects, real codecs
     on a concrete Arrow-typed body: exactly one announcing header, on the header (b) prescribes,
@@ -20,9 +20,11 @@
 from __future__ import annotations
 
 import io
+import zlib as _real_zlib
 
 import falcon
 import falcon.testing
+import zstandard as _real_zstd
 
 from engine.api import HarnessModelError, cond, pick
 from engine.reglob import reglobalize
@@ -50,14 +52,15 @@ BOUNDS = (
     "stamping: 6x6 (quick) / all (thorough) pairs x encode sets x {unary BytesIO body, empty body, no stream, pre-compressed producer body, non-Arrow content type}"
 )
 OUTSIDE = (
-    "header strings longer than the templates / free-form bound (covered only through the list abstraction); q-values are deliberately ignored by the server "
-    "(order decides) — not judged; real zlib/zstandard on one concrete body only (C18); the producer's own compression code (_app_stream) is simulated from the "
+    "header strings longer than the templates / free-form bound (covered only through the list abstraction); whether q-values or the list order express the "
+    "preference (every weighted header used here reads the same both ways), q=0 and '*' elements — not judged; real zlib/zstandard on one concrete body only (C18); the producer's own compression code (_app_stream) is simulated from the "
     "contextvars it reads; client-side decoding code"
 )
 ASSUMPTIONS = [
     "parse_encoding_list contract in (b)/(c) = 'any duplicate-free list of Encoding members' — decided by (a) inside its bound",
-    "a codec offered on BOTH accept headers is announced on Content-Encoding (the repository's documented reading of 'the header matching how it was negotiated'; see tests/test_http.py TestResponseEncodingPreference)",
-    "X-VGI-Content-Encoding is used iff the chosen codec was offered on X-VGI-Accept-Encoding only",
+    "a codec offered on X-VGI-Accept-Encoding only is announced on X-VGI-Content-Encoding, one offered on Accept-Encoding only on Content-Encoding; "
+    "one offered on BOTH may be announced on either (the repository uses Content-Encoding, WIRE_PROTOCOL's 'negotiated through the custom header' reads the other way) — always exactly one header",
+    "the client's decoder in (c) is zlib (gzip container) / zstandard called directly on exactly one member / frame",
 ]
 
 # ---------------------------------------------------------------------------
@@ -78,7 +81,10 @@ def _case(t: str, v: int) -> str:
 
 _TEXT = [[_case(t, v) for v in range(3)] for t, _m in _TK]
 _PADS = [("", ""), (" ", " "), ("\t", "")]
-_PARAMS = ["", ";q=0.5", " ; q=0"]
+# q-parameters: the same non-zero weight on every element, so that a server reading q-values as the preference order
+# (RFC 9110 12.4.2) and one that lets the list order decide (this repository) agree on the order.  "q=0" ("not
+# acceptable") and "*" are left out: listing or dropping such an element are both defensible.
+_PARAMS = ["", ";q=0.5", " ; q=0.8"]
 
 
 # (case variant, padding, parameter form) — quick tier: 4 mixed styles; thorough: all 27
@@ -155,7 +161,7 @@ def _names_at(s: str, m: object, pos: int) -> bool:
     return True
 
 
-@cond(q=60, t=600, encoded=[cod.parse_encoding_list], bound=f"any string len<={_LF}", replay=_replay_freeform, signature=lambda a, c: "C19:parse:short-string")
+@cond(q=120, t=600, encoded=[cod.parse_encoding_list], bound=f"any string len<={_LF}", replay=_replay_freeform, signature=lambda a, c: "C19:parse:short-string")
 def parse_list_freeform(s: str) -> bool:
     """
     pre: len(s) <= _LF
@@ -184,6 +190,31 @@ def parse_list_freeform(s: str) -> bool:
                     return got == [m]
                 return got == [m] or got == [] if head.strip() == "" else got == []
     return got == []
+
+
+_LFL = pick(1, 2)  # (one more character triples the solver time; longer neighbours are the templates' business)
+
+
+def _replay_freeform_in_list(args: dict) -> str | None:
+    m = _MEMBERS[args["which"]]
+    return _describe_parse((args["s"] + "," + m.value) if args["first"] else (m.value + "," + args["s"]), [m])
+
+
+@cond(q=120, t=600, encoded=[cod.parse_encoding_list], bound=f"any string len<={_LFL} as the list element before / after a codec name",
+      replay=_replay_freeform_in_list, signature=lambda a, c: "C19:parse:short-string-in-list")
+def parse_list_freeform_next_to_codec(s: str, which: int, first: bool) -> bool:
+    """
+    pre: len(s) <= _LFL and 0 <= which < len(_MEMBERS) and len(_SHORT) == 0
+    post: _
+    """
+    # no codec name fits into s (nor into a piece of it): whatever s is — separators, parameters, white space, junk —
+    # the header lists exactly the codec next to it
+    m = _MEMBERS[which]
+    try:
+        got = cod.parse_encoding_list((s + "," + m.value) if first else (m.value + "," + s))
+    except Exception:  # noqa: BLE001
+        return False
+    return got == [m]
 
 
 _NAMED = [m for m in _MEMBERS if m is not _I]  # the two real compressors (identity is decided by the templates)
@@ -304,7 +335,9 @@ def _rank(e: object, custom: list, standard: list) -> int:
     return _BIG
 
 
-def _want(custom: list, standard: list, levels: dict) -> tuple[object, bool]:
+def _want(custom: list, standard: list, levels: dict) -> tuple[object, object]:
+    """(codec, response header): True = X-VGI-Content-Encoding, False = Content-Encoding, None = either one (the codec
+    was offered on both accept headers: "the header matching how it was negotiated" does not single one out)."""
     rz = _rank(_Z, custom, standard) if _Z in levels else _BIG
     rg = _rank(_G, custom, standard) if _G in levels else _BIG
     ri = _rank(_I, custom, standard)
@@ -312,7 +345,13 @@ def _want(custom: list, standard: list, levels: dict) -> tuple[object, bool]:
     rb = rz if rz < rg else rg
     if rb == _BIG or ri < rb:
         return None, False
-    return best, (best in custom and best not in standard)
+    if best in custom and best in standard:
+        return best, None
+    return best, best in custom
+
+
+def _header_ok(used_custom: object, want_custom: object) -> bool:
+    return want_custom is None or bool(used_custom) == want_custom
 
 
 def _header_text(lst: list) -> str:
@@ -320,17 +359,19 @@ def _header_text(lst: list) -> str:
 
 
 def _replay_pick(args: dict) -> str | None:
-    custom, standard = _LISTS[args["ci"]], _LISTS[args["si"]]
+    # an absent header is absent here too (hc / hs False), a present one carries its list (possibly empty)
+    custom = _LISTS[args["ci"]] if args.get("hc", True) else []
+    standard = _LISTS[args["si"]] if args.get("hs", True) else []
     levels = _levels(args["pz"], args["pg"])
     headers = {}
-    if custom or args.get("hc", True):
+    if args.get("hc", True):
         headers["X-VGI-Accept-Encoding"] = _header_text(custom)
-    if standard or args.get("hs", True):
+    if args.get("hs", True):
         headers["Accept-Encoding"] = _header_text(standard)
     mw = mwm._CompressionMiddleware(dict(levels))
     chosen, used_custom = mw._pick_response_encoding(falcon.testing.create_req(headers=headers))
     want, want_custom = _want(custom, standard, levels)
-    if chosen is not want or (want is not None and used_custom != want_custom):
+    if chosen is not want or (want is not None and not _header_ok(used_custom, want_custom)):
         return (
             f"server producing {[e.value for e in levels]}, X-VGI-Accept-Encoding: {_header_text(custom)!r}, Accept-Encoding: {_header_text(standard)!r} -> "
             f"({getattr(chosen, 'value', None)}, custom_header={used_custom}); the rule gives ({getattr(want, 'value', None)}, custom_header={want_custom})"
@@ -361,7 +402,7 @@ def pick_follows_preference_rule(ci: int, si: int, hc: bool, hs: bool, pz: bool,
     if chosen is not want:
         return False
     # which header gets stamped only matters when something is chosen
-    return want is None or used_custom == want_custom
+    return want is None or _header_ok(used_custom, want_custom)
 
 
 # representative real header strings through the un-stubbed pick (ties (a) and (b) together)
@@ -370,10 +411,10 @@ _REAL_HEADERS: list[tuple[str | None, list]] = [
     ("", []),
     ("deflate, gzip, br, zstd", [_G, _Z]),
     ("zstd, gzip", [_Z, _G]),
-    ("ZSTD;q=0.5, gzip", [_Z, _G]),
+    ("ZSTD;q=0.9, gzip;q=0.9", [_Z, _G]),
     ("identity", [_I]),
-    ("gzip , identity;q=0", [_G, _I]),
-    ("br, *;q=0.1", []),
+    ("gzip , identity;q=0.3", [_G, _I]),
+    ("br, compress;q=0.1", []),
     ("identity, gzip, gzip, zstd", [_I, _G, _Z]),
 ]
 
@@ -384,7 +425,7 @@ def _replay_real_headers(args: dict) -> str | None:
     headers = {k: v for k, v in (("X-VGI-Accept-Encoding", ctext), ("Accept-Encoding", stext)) if v is not None}
     chosen, used_custom = mwm._CompressionMiddleware(dict(levels))._pick_response_encoding(falcon.testing.create_req(headers=headers))
     want, want_custom = _want(custom, standard, levels)
-    if chosen is not want or (want is not None and used_custom != want_custom):
+    if chosen is not want or (want is not None and not _header_ok(used_custom, want_custom)):
         return f"server producing {[e.value for e in levels]}, request headers {headers} -> ({getattr(chosen, 'value', None)}, custom_header={used_custom}); the rule gives ({getattr(want, 'value', None)}, custom_header={want_custom})"
     return None
 
@@ -407,12 +448,17 @@ def pick_on_real_headers(ci: int, si: int, pz: bool, pg: bool) -> bool:
         def get_header(self, name: str, required: bool = False, default: str | None = None) -> str | None:
             return ctext if name == "X-VGI-Accept-Encoding" else (stext if name == "Accept-Encoding" else None)
 
+        def __getattr__(self, name: str) -> object:
+            raise HarnessModelError(f"request stub has no {name}")
+
     try:
         chosen, used_custom = mwm._CompressionMiddleware._pick_response_encoding(_MW, _R())  # type: ignore[arg-type]
+    except HarnessModelError:
+        raise
     except Exception:  # noqa: BLE001
         return False
     want, want_custom = _want(custom, standard, levels)
-    return chosen is want and (want is None or used_custom == want_custom)
+    return chosen is want and (want is None or _header_ok(used_custom, want_custom))
 
 
 # ---------------------------------------------------------------------------
@@ -453,9 +499,29 @@ def _client_view(resp: object, body_if_stream: bytes) -> tuple[str, bytes | None
     if enc is None:
         return "announced an unknown coding", None
     try:
-        return "", cod.decompress(enc, raw)
+        return "", _client_decode(enc, raw)
     except Exception as e:  # noqa: BLE001
         return f"body does not decode as the announced {value}: {e}", None
+
+
+def _client_decode(enc: object, raw: bytes) -> bytes:
+    """What an independent HTTP client does with the announced coding: the libraries directly, not the repository's decoder
+    (a container the repository's two sides merely agree on would pass through that)."""
+    if enc is _G:
+        do = _real_zlib.decompressobj(16 + _real_zlib.MAX_WBITS)  # RFC 1952 gzip member, nothing else
+        out = do.decompress(raw) + do.flush()
+        if not do.eof or do.unused_data:
+            raise ValueError("not exactly one complete gzip member")
+        return out
+    if enc is _Z:
+        do2 = _real_zstd.ZstdDecompressor().decompressobj()
+        out = do2.decompress(raw)
+        if do2.unused_data or not getattr(do2, "eof", True):
+            raise ValueError("not exactly one complete zstd frame")
+        return out
+    if enc is _I:
+        return raw
+    raise HarnessModelError(f"client decoder for {enc!r} is not modelled")
 
 
 def _run_exchange(mw: object, req: object, kind: int, process_request, process_response, _Resp=None) -> tuple[str, object, bytes]:  # noqa: ANN001, N803
@@ -482,7 +548,7 @@ def _run_exchange(mw: object, req: object, kind: int, process_request, process_r
     return "", resp, body
 
 
-def _judge(resp: object, wire_body: bytes, kind: int, want: object, want_custom: bool) -> str | None:
+def _judge(resp: object, wire_body: bytes, kind: int, want: object, want_custom: object) -> str | None:
     original = b"" if kind == 1 else _BODY
     problem, seen = _client_view(resp, wire_body)
     if problem:
@@ -496,7 +562,7 @@ def _judge(resp: object, wire_body: bytes, kind: int, want: object, want_custom:
     if announced:
         if resp.headers[0][1] != getattr(want, "value", None):
             return f"announced {resp.headers[0][1]} but the rule picks {getattr(want, 'value', None)}"
-        if announced[0] != ("X-VGI-Content-Encoding" if want_custom else "Content-Encoding"):
+        if want_custom is not None and announced[0] != ("X-VGI-Content-Encoding" if want_custom else "Content-Encoding"):
             return f"announced on {announced[0]}"
     elif want is not None and kind == 0:
         return "a unary Arrow body was left uncompressed although a producible codec was negotiated"
